@@ -108,8 +108,16 @@ pub fn compile<TCompilationProfile: CompilationProfile>(
         &mut state.file_system_state,
     );
 
-    let total_artifacts_written = apply_file_system_operations(&file_system_operations, &artifacts)
-        .map_err(Diagnostic::from)?;
+    let total_artifacts_written =
+        match apply_file_system_operations(&file_system_operations, &artifacts) {
+            Ok(count) => count,
+            Err(e) => {
+                // The in-memory state already describes the new artifacts, but they were not
+                // (all) written. Forget it, so that the next compile recreates everything.
+                state.file_system_state = None;
+                return Err(Diagnostic::from(e).into());
+            }
+        };
 
     CompilationStats {
         client_field_count: stats.client_field_count,
